@@ -27,17 +27,21 @@ theorem iou_range (a b i : Rat) (h0 : 0 ≤ i) (ha : i ≤ a) (hb : i ≤ b) :
     have hpos : 0 < a + b - i := lt_of_le_of_ne (by linarith) (Ne.symm hu)
     exact ⟨div_nonneg h0 hpos.le, (div_le_one hpos).2 (by linarith)⟩
 
+/-- the formula does not depend on the order of the two areas -/
 theorem iou_symm (a b i : Rat) : iou a b i = iou b a i := by
   unfold iou; rw [add_comm a b]
 
+/-- `A = B = I > 0` gives exactly 1 -/
 theorem iou_self (a : Rat) (h : 0 < a) : iou a a a = 1 := by
   unfold iou
   have : a + a - a = a := by ring
   rw [this, if_neg (ne_of_gt h), div_self (ne_of_gt h)]
 
+/-- no intersection gives 0 (also through the zero-union guard) -/
 theorem iou_zero (a b : Rat) : iou a b 0 = 0 := by
   unfold iou; split <;> simp
 
+/-- the repaired (clamped) formula lies in `[0, 1]` as soon as `0 ≤ I ≤ A + B` -/
 theorem iouC_range (a b i : Rat) (h0 : 0 ≤ i) (hu : i ≤ a + b) :
     0 ≤ iouC a b i ∧ iouC a b i ≤ 1 := by
   unfold iouC
@@ -47,6 +51,7 @@ theorem iouC_range (a b i : Rat) (h0 : 0 ≤ i) (hu : i ≤ a + b) :
     have hpos : 0 < a + b - i := lt_of_le_of_ne (by linarith) (Ne.symm hne)
     exact ⟨le_min (div_nonneg h0 hpos.le) (by norm_num), min_le_right _ _⟩
 
+/-- under the exact contract `I ≤ min(A, B)` the clamp is inactive -/
 theorem iouC_eq_iou (a b i : Rat) (h0 : 0 ≤ i) (ha : i ≤ a) (hb : i ≤ b) : iouC a b i = iou a b i := by
   have h := (iou_range a b i h0 ha hb).2
   unfold iouC iou at *
@@ -65,16 +70,11 @@ theorem iouC_self (a : Rat) (h : 0 < a) : iouC a a a = 1 := by
 theorem iouC_zero (a b : Rat) : iouC a b 0 = 0 := by
   unfold iouC; split <;> simp
 
+/-- the time affinity is the same formula on durations and overlap length -/
 theorem timeIoU_eq_iou (s1 e1 s2 e2 : Rat) :
     timeIoU s1 e1 s2 e2 = iou (e1 - s1) (e2 - s2) (max 0 (min e1 e2 - max s1 s2)) := rfl
 
-theorem timeInter_bounds (s1 e1 s2 e2 : Rat) (h1 : s1 ≤ e1) (h2 : s2 ≤ e2) :
-    0 ≤ max 0 (min e1 e2 - max s1 s2) ∧ max 0 (min e1 e2 - max s1 s2) ≤ e1 - s1 ∧
-    max 0 (min e1 e2 - max s1 s2) ≤ e2 - s2 := by
-  refine ⟨le_max_left _ _, max_le (by linarith) ?_, max_le (by linarith) ?_⟩
-  · have := min_le_left e1 e2; have := le_max_left s1 s2; linarith
-  · have := min_le_right e1 e2; have := le_max_right s1 s2; linarith
-
+/-- time affinity of two ordered extents lies in `[0, 1]` -/
 theorem timeIoU_range (s1 e1 s2 e2 : Rat) (h1 : s1 ≤ e1) (h2 : s2 ≤ e2) :
     0 ≤ timeIoU s1 e1 s2 e2 ∧ timeIoU s1 e1 s2 e2 ≤ 1 := by
   obtain ⟨a, b, c⟩ := timeInter_bounds s1 e1 s2 e2 h1 h2
@@ -87,6 +87,7 @@ theorem timeIoU_self (s e : Rat) (h : s < e) : timeIoU s e s e = 1 := by
   rw [timeIoU_eq_iou, min_self, max_self, max_eq_right (by linarith : (0 : Rat) ≤ e - s)]
   exact iou_self _ (by linarith)
 
+/-- extents that do not overlap (touching included) give 0 -/
 theorem timeIoU_disjoint (s1 e1 s2 e2 : Rat) (h : e1 ≤ s2 ∨ e2 ≤ s1) : timeIoU s1 e1 s2 e2 = 0 := by
   have : max 0 (min e1 e2 - max s1 s2) = 0 := by
     apply max_eq_left
@@ -95,6 +96,7 @@ theorem timeIoU_disjoint (s1 e1 s2 e2 : Rat) (h : e1 ≤ s2 ∨ e2 ≤ s1) : tim
     · have := min_le_right e1 e2; have := le_max_left s1 s2; linarith
   rw [timeIoU_eq_iou, this, iou_zero]
 
+/-- a common time offset changes nothing -/
 theorem timeIoU_shift (s1 e1 s2 e2 d : Rat) :
     timeIoU (s1 + d) (e1 + d) (s2 + d) (e2 + d) = timeIoU s1 e1 s2 e2 := by
   simp only [timeIoU_eq_iou, min_add_add_right, max_add_add_right]
@@ -112,14 +114,17 @@ theorem boxInter_le_min (s1 l1 e1 h1 s2 l2 e2 h2 : Rat) (a1 : s1 ≤ e1) (b1 : l
   obtain ⟨h0, ha, hb⟩ := boxInter_bounds s1 l1 e1 h1 s2 l2 e2 h2 a1 b1 a2 b2
   exact ⟨h0, le_min ha hb⟩
 
+/-- rectangle intersection area is symmetric -/
 theorem boxInter_symm (s1 l1 e1 h1 s2 l2 e2 h2 : Rat) :
     boxInter s1 l1 e1 h1 s2 l2 e2 h2 = boxInter s2 l2 e2 h2 s1 l1 e1 h1 := by
   unfold boxInter; rw [min_comm e1 e2, max_comm s1 s2, min_comm h1 h2, max_comm l1 l2]
 
+/-- a rectangle intersected with itself has its own area -/
 theorem boxInter_self (s l e h : Rat) (a : s ≤ e) (b : l ≤ h) : boxInter s l e h s l e h = boxArea s l e h := by
   unfold boxInter boxArea
   rw [min_self, max_self, min_self, max_self, max_eq_right (by linarith), max_eq_right (by linarith)]
 
+/-- rectangles disjoint in time have intersection area 0 -/
 theorem boxInter_disjoint (s1 l1 e1 h1 s2 l2 e2 h2 : Rat) (h : e1 ≤ s2 ∨ e2 ≤ s1) :
     boxInter s1 l1 e1 h1 s2 l2 e2 h2 = 0 := by
   unfold boxInter
@@ -130,6 +135,7 @@ theorem boxInter_disjoint (s1 l1 e1 h1 s2 l2 e2 h2 : Rat) (h : e1 ≤ s2 ∨ e2 
     · have := min_le_right e1 e2; have := le_max_left s1 s2; linarith
   rw [this, zero_mul]
 
+/-- rectangle areas and intersection areas are invariant under a common time shift -/
 theorem box_shift (s1 l1 e1 h1 s2 l2 e2 h2 d : Rat) :
     boxInter (s1 + d) l1 (e1 + d) h1 (s2 + d) l2 (e2 + d) h2 = boxInter s1 l1 e1 h1 s2 l2 e2 h2 ∧
     boxArea (s1 + d) l1 (e1 + d) h1 = boxArea s1 l1 e1 h1 := by
@@ -161,19 +167,6 @@ theorem affinity_ok_iff (G : Geos σ) (g1 g2 : Geom) (tb fb : Rat) :
         exact ⟨p1, p2, h1, h2⟩
   · rintro ⟨p1, p2, h1, h2⟩
     rw [h1, h2]; exact ⟨_, rfl⟩
-
-theorem affinity_eq (G : Geos σ) (g1 g2 : Geom) (tb fb : Rat) (p1 p2 : Prep σ)
-    (h1 : prepare G g1 tb fb = .ok p1) (h2 : prepare G g2 tb fb = .ok p2) :
-    affinity G g1 g2 tb fb = .ok (affinityP G p1 p2) := by
-  unfold affinity; rw [h1, h2]
-
-theorem affinity_ok_prepared (G : Geos σ) (g1 g2 : Geom) (tb fb v : Rat)
-    (h : affinity G g1 g2 tb fb = .ok v) :
-    ∃ p1 p2, prepare G g1 tb fb = .ok p1 ∧ prepare G g2 tb fb = .ok p2 ∧ v = affinityP G p1 p2 := by
-  obtain ⟨p1, p2, h1, h2⟩ := (affinity_ok_iff G g1 g2 tb fb).1 ⟨v, h⟩
-  rw [affinity_eq G g1 g2 tb fb p1 p2 h1 h2] at h
-  cases h
-  exact ⟨p1, p2, h1, h2, rfl⟩
 
 /-- **Range.**  For valid geometries the (repaired) affinity lies in `[0, 1]`; of GEOS only
     `Sane` is needed (`0 ≤ I ≤ A₁ + A₂`), which binary64 results satisfy as well. -/
